@@ -323,13 +323,10 @@ func looksLikeOption(w string) bool {
 func parseArgs(t *Table, argv []string) *Parsed {
 	p := &Parsed{Flags: map[string]bool{}, Str: map[string]string{}, Arr: map[string][]string{}, Pairs: map[string][][2]string{}}
 	lookup := func(sp string) *OptDef {
-		if o := t.Lookup(sp); o != nil {
-			return o
+		if o, ok := jqSpellings[sp]; ok {
+			return o // spelling and arity from the jq manual
 		}
-		if k, ok := jqSpellings[sp]; ok {
-			return t.Key(k)
-		}
-		return nil
+		return t.Lookup(sp)
 	}
 	i := 0
 	// apply handles option o found at argv[i] (value possibly attached with =);
@@ -531,7 +528,7 @@ func predict(t *Table, c Case, o predOpts) *Pred {
 	ps := parseArgs(t, c.Args)
 	for _, w := range c.Args {
 		name, _, _ := strings.Cut(w, "=")
-		if _, ok := jqSpellings[name]; ok && t.Lookup(name) == nil {
+		if o, ok := jqSpellings[name]; ok && (t.Lookup(name) == nil || t.Lookup(name).Key != o.Key) {
 			pr.JqSpell = name
 		}
 	}
